@@ -321,6 +321,11 @@ def gen_ops(rng: random.Random, hps: dict[str, Any],
                 op['extra_fwd'] = True
             if acc >= 2 and rng.random() < 0.15:
                 op['reset_after'] = rng.randint(0, acc - 2)
+            elif not hook and factors_exist and rng.random() < 0.06:
+                # reset_batch() after the last backward pass and before
+                # step(): a factor-update step without fresh statistics
+                # (factors stay, are still reduced once, inverses refresh)
+                op['reset_after'] = acc - 1
             if rng.random() < 0.1:
                 # an eval-mode probe before micro-batch k of this iteration
                 op['mid_eval'] = rng.randrange(acc)
